@@ -25,6 +25,8 @@ type c16Case struct {
 	Mode    string `json:"mode"`    // len | block | random
 	Mangler int    `json:"mangler"` // 0 nil, 1 identity, 2 reverse, 3 shuffle, 4 rotate
 	WV      bool   `json:"with_value"`
+	Prio    int    `json:"prio"`    // 0 random priorities; 1 growing with the key (the tree is one long left spine); 2 falling (right spine); 3 all equal
+	Recycle bool   `json:"recycle"` // file-backed: counting ItemAlloc/ItemAddRef/ItemDecRef callbacks that overwrite the buffers of released items
 	Cmp     int    `json:"cmp"` // key order of the collection: 0 bytes.Compare (nil), 1 reversed, 2 length then bytes
 }
 
@@ -101,6 +103,9 @@ func runC16(c c16Case) (res string) {
 			cmp = comparators[c.Cmp]
 			cb.KeyCompareForCollection = func(string) gkvlite.KeyCompare { return cmp }
 		}
+		if c.File && c.Recycle {
+			cb = NewRefCounter().callbacks(cb)
+		}
 		if c.File {
 			mf = NewMemFile()
 			s, err = gkvlite.NewStoreEx(mf, cb)
@@ -113,8 +118,20 @@ func runC16(c c16Case) (res string) {
 		col := s.SetCollection("c", cmp)
 		keys := c16Keys(c)
 		r := NewRng(c.KeySeed + 7)
-		for _, k := range keys {
-			if err := col.SetItem(&gkvlite.Item{Key: k, Val: append([]byte("v"), k...), Priority: int32(r.U64() & 0x7fffffff)}); err != nil {
+		if c.Prio != 0 {
+			sort.Slice(keys, func(i, j int) bool { return bytes.Compare(keys[i], keys[j]) < 0 })
+		}
+		for ki, k := range keys {
+			prio := int32(r.U64() & 0x7fffffff)
+			switch c.Prio {
+			case 1:
+				prio = int32(ki + 1)
+			case 2:
+				prio = int32(len(keys) - ki)
+			case 3:
+				prio = 7
+			}
+			if err := col.SetItem(&gkvlite.Item{Key: k, Val: append([]byte("v"), k...), Priority: prio}); err != nil {
 				return "set: " + err.Error()
 			}
 		}
@@ -276,6 +293,13 @@ func checkC16(rep *Report, rng *Rng, tier string) {
 	for n := 0; n <= small; n++ {
 		sizes = append(sizes, n)
 	}
+	spine := map[int]bool{}
+	for _, n := range []int{127, 128, 129, 130, 200, 513} {
+		spine[n] = true // also as degenerate shapes: one spine of n nodes
+		if n > small {
+			sizes = append(sizes, n)
+		}
+	}
 	for k := 1; k <= maxk; k++ {
 		for d := -around; d <= around; d++ {
 			sizes = append(sizes, k*1024+d)
@@ -309,9 +333,19 @@ func checkC16(rep *Report, rng *Rng, tier string) {
 			cases = append(cases, c16Case{N: n, KeySeed: ks, KeyMode: km, File: fb, Mode: "block", Mangler: 0, WV: true, Nested: true})
 			cases = append(cases, c16Case{N: n, KeySeed: ks, KeyMode: km, File: fb, Mode: "random", Nested: true})
 		}
+		if spine[n] {
+			// degenerate shapes: a spine of n nodes
+			for pm := 1; pm <= 3; pm++ {
+				cases = append(cases, c16Case{N: n, KeySeed: ks, KeyMode: km, File: fb, Mode: "len", Prio: pm})
+				cases = append(cases, c16Case{N: n, KeySeed: ks, KeyMode: km, File: fb, Mode: "random", Prio: pm})
+				cases = append(cases, c16Case{N: n, KeySeed: ks, KeyMode: km, File: fb, Mode: "block", Mangler: pm, WV: pm%2 == 0, Prio: pm})
+			}
+		}
 		cm := rng.Intn(3) // the key order of this size's collection
+		rcy := fb && n%2 == 0
 		for _, c := range cases {
 			c.Cmp = cm
+			c.Recycle = rcy
 			rep.Evaluations++
 			hist[c.Mode]++
 			if c.N >= 1 {
